@@ -26,8 +26,10 @@ from pathlib import Path
 VERIF = Path(__file__).resolve().parent.parent
 LEAN = VERIF / "lean"
 REPO = Path(os.environ.get("PYXEL_REPO", "/repo"))
-EVIDENCE = VERIF / "evidence"
-REPLAYS = VERIF / "replays"
+# runs against a scratch copy (PYXEL_REPO=...: mutation trials) must never overwrite the committed evidence
+_SCRATCH = REPO.resolve() != Path("/repo")
+EVIDENCE = VERIF / ("evidence_scratch" if _SCRATCH else "evidence")
+REPLAYS = VERIF / ("replays_scratch" if _SCRATCH else "replays")
 CORPUS = VERIF / "corpus"
 KNOWN = VERIF / "known_findings.jsonl"
 
